@@ -262,7 +262,8 @@ def body_e2e(ctx, case):
     nreg = case["nreg"]
     groups = [[] for _ in range(nreg)]
     for n, l in enumerate(case["lines"]):
-        line = build_line("l%03d" % n, l["geom"], l["text"], CHARS, l["seed"], confuse=l["confuse"])
+        lid = ("l%03d" % n) if l["seed"] % 4 else ("id_l%d" % n)        # ids are opaque strings, also when they start with 'id_'
+        line = build_line(lid, l["geom"], l["text"], CHARS, l["seed"], confuse=l["confuse"])
         groups[n % nreg].append(line)
     for r, g in enumerate(groups):
         if not g:
